@@ -278,10 +278,20 @@ func (r *Rediaron) BatchPut(ctx context.Context, data map[string]string) error {
 
 // BatchCreateAndDecr decr processing and add workload
 func (r *Rediaron) BatchCreateAndDecr(ctx context.Context, data map[string]string, decrKey string) (err error) {
+	// like the etcd store: the counter has to be there, and the data is put
+	// FIXME: no transaction ensured
+	e, err := r.cli.Exists(ctx, decrKey).Result()
+	if err != nil {
+		return err
+	}
+	if e != 1 {
+		return errors.Wrap(types.ErrKeyNotExists, decrKey)
+	}
+
 	batchCreateAndDecr := func(pipe redis.Pipeliner) error {
 		pipe.Decr(ctx, decrKey)
 		for key, value := range data {
-			pipe.SetNX(ctx, key, value, 0)
+			pipe.Set(ctx, key, value, 0)
 		}
 		return nil
 	}
